@@ -225,7 +225,8 @@ def parseOp (j : Json) : Except String Op := do
     let docs ← match j.getObjVal? "docs" with
       | .ok a => if a.isNull then pure none else pure (some (← (← a.getArr?).toList.mapM parseDoc))
       | .error _ => pure none
-    pure (.importDocs coll docs (← parseFresh j))
+    -- the decoded objects as `ImportCollection` hands them to `NewDocumentOf`: `_expiresAt` restored
+    pure (.importDocs coll (docs.map (fun ds => ds.map restoreExpiresAt)) (← parseFresh j))
   | "export" => pure (.exportDocs coll)
   | _ => throw s!"unknown op {name}"
 
